@@ -312,6 +312,7 @@ func (store *HStore) GC(bucketID, beginChunkID, endChunkID, noGCDays int, merge,
 		return
 	}
 
+	verifPoint("hstore.gc.accepted", bucketID)
 	go store.gcMgr.gc(bkt, begin, end, merge)
 	return
 }
